@@ -173,6 +173,11 @@ func (c *c19Mon) scenario(sc *StepCtx) {
 		m.fail(sc, "C19", "export-complete", "", "export holds %d/%d/%d/%d definitions/bindings/withdraw addresses/contexts, store has %d/%d/%d/%d", len(gs.Definitions), len(gs.Bindings), len(gs.WithdrawAddresses), len(gs.RequestContexts), len(s1.Defs), len(s1.Bindings), len(s1.Withdraw), len(s1.Contexts))
 	}
 
+	// 2b. a genesis the unchanged tree refuses: the same export with one binding's pricing given a
+	// discount that is not below one (once as an available, once as a disabled binding). If
+	// validation and import accept it, price terms the statements exclude are in the store.
+	c.badPricingGenesis(sc, gs)
+
 	// 3. JSON round trip through the application's JSON codec
 	cdc := w.a.app.AppCodec()
 	var bz []byte
@@ -301,10 +306,43 @@ func (c *c19Mon) plainExport(sc *StepCtx) {
 	sub := &Mon{stats: NewStats(), run: sc.run, seenSig: map[string]bool{}, broken: map[string]bool{}}
 	ssc := &StepCtx{Idx: sc.Idx, Step: &Step{Kind: "import", Desc: "import of a plain (unprepared) export that validation accepted"}, Res: sc.Res, Pre: s, Post: s, run: sc.run}
 	sub.stateC11(ssc, s)
+	sub.stateC12(ssc, s)
 	sub.stateC15(ssc, s)
 	sub.stateC16(ssc, s)
 	for _, v := range sub.stats.Violations {
 		m.fail(sc, v.Prop, v.Rule, "plain-export-import", "a genesis exported without preparation passes validation, but the imported state breaks an invariant: %s", v.Msg)
+	}
+}
+
+func (c *c19Mon) badPricingGenesis(sc *StepCtx, gs *types.GenesisState) {
+	m := c.m
+	w := sc.run.w
+	if len(gs.Bindings) == 0 {
+		return
+	}
+	for variant := 0; variant < 2; variant++ {
+		bad := *gs
+		bad.Bindings = append([]types.ServiceBinding(nil), gs.Bindings...)
+		b := bad.Bindings[len(bad.Bindings)-1]
+		b.Pricing = fmt.Sprintf(`{"price":"100%s","promotions_by_volume":[{"volume":1,"discount":"1.5"}]}`, denom)
+		b.Available = variant == 0
+		if !b.Available {
+			b.DisabledTime = w.now
+		}
+		bad.Bindings[len(bad.Bindings)-1] = b
+		m.hit("C19", "refused-genesis", fmt.Sprintf("bad-discount/avail%v", b.Available))
+		if types.ValidateGenesis(bad) != nil {
+			continue
+		}
+		if c.spare == nil {
+			c.spare = NewApp()
+		}
+		ctx2, _ := c.spare.baseCtx.CacheContext()
+		if pan, _ := guard(func() { service.InitGenesis(ctx2, c.spare.k, bad) }); pan != "" {
+			continue
+		}
+		m.fail(sc, "C07", "discount-in-range", fmt.Sprintf("genesis-accepts/avail%v", b.Available), "a genesis whose binding (%s, available=%v) publishes a volume discount of 1.5 passes validation and is imported: every discount lies strictly between 0 and 1", b.ServiceName, b.Available)
+		m.fail(sc, "C15", "binding-valid", fmt.Sprintf("genesis-accepts/avail%v", b.Available), "a genesis whose binding (%s, available=%v) publishes a volume discount of 1.5 passes validation and is imported", b.ServiceName, b.Available)
 	}
 }
 
